@@ -63,7 +63,7 @@ theorem numOK_spec : NumOK specNS := by
         simpa using hh.symm
     · simp only [ht, if_false] at hs; cases hs
 
-theorem numOK_spec_mem (grow : Mem → Nat → Mem × BitVec 32) : NumOK (withConcMem specNS grow) :=
+theorem numOK_spec_mem (grow : Mem → Nat → Mem × BitVec 32) (datas : List (List UInt8) := []) : NumOK (withConcMem specNS grow datas) :=
   ⟨numOK_spec.arity, numOK_spec.typed⟩
 
 /-! ## module level: the emitted-C side alone, over the macro semantics -/
@@ -87,6 +87,7 @@ structure BaseRef (A B : NumSem) : Prop where
   load : B.loadT = A.loadT
   store : B.storeT = A.storeT
   grow : B.grow = A.grow
+  bulk : B.bulkT = A.bulkT
 
 theorem indirect_noub (m : MModule) (cA cB : Nat → List Val → GS → Out (Option Val × GS))
     (h : ∀ fn args g, Out.NoUB (cA fn args g) → cB fn args g = cA fn args g) (ty i : Nat) (args : List Val) (g : GS)
@@ -127,12 +128,13 @@ theorem runT_eq (m : MModule) (A B : NumSem) (hab : BaseRef A B) (cfs : List Mod
              fun ty i args g h => indirect_noub m _ _ ih ty i args g h,
              fun fn mm ea _ => by show B.loadT fn mm ea = A.loadT fn mm ea; rw [hab.load],
              fun fn mm ea v _ => by show B.storeT fn mm ea v = A.storeT fn mm ea v; rw [hab.store],
-             hab.grow⟩
+             hab.grow,
+             fun op mm a b c _ => by show B.bulkT op mm a b c = A.bulkT op mm a b c; rw [hab.bulk]⟩
           rw [runFuncTgt_refine _ _ href]
           intro hs; rw [hs] at hn; exact hn
         · simp only [hty, if_false]
 
-theorem baseRef_macro (grow : Mem → Nat → Mem × BitVec 32) : BaseRef (withConcMem specNS grow) (withConcMem macroNS grow) :=
-  ⟨macroNum_refines_specNum, rfl, rfl, rfl⟩
+theorem baseRef_macro (grow : Mem → Nat → Mem × BitVec 32) (datas : List (List UInt8) := []) : BaseRef (withConcMem specNS grow datas) (withConcMem macroNS grow datas) :=
+  ⟨macroNum_refines_specNum, rfl, rfl, rfl, rfl⟩
 
 end W2c2Verif.Sim
